@@ -132,6 +132,8 @@ type term struct {
 	p0, p1 int
 	hasUF  bool
 	size   int // number of nodes (tree size, saturating) — used for inlining decisions
+	rngSet int8 // 0 unknown yet, 1 known range, 2 no range
+	lo, hi int64
 }
 
 type termTable struct {
@@ -430,6 +432,9 @@ func mkP(op opcode, s ssort, p0, p1 int, name string, args ...*term) *term {
 				return mkConst(s, r)
 			}
 		}
+	}
+	if r := intFloatSimplify(op, s, p0, args); r != nil {
+		return r
 	}
 	// light simplification
 	switch op {
@@ -892,3 +897,246 @@ func (t *term) String() string {
 }
 
 var _ = bits.Len
+
+
+// ---- integer-valued floats ----
+//
+// Lua programs compute loop counters, indices and counts in float64. When both operands of a
+// floating-point operation are exact images of small integers (|v| <= 2^53) the operation is
+// rewritten to bit-vector arithmetic, which the solver decides quickly. Ranges are tracked by a
+// conservative interval analysis of 64-bit terms (signed view).
+
+const intFloatLimit = int64(1) << 53
+
+func (t *term) bvRange() (int64, int64, bool) {
+	if t.rngSet == 1 {
+		return t.lo, t.hi, true
+	}
+	if t.rngSet == 2 {
+		return 0, 0, false
+	}
+	lo, hi, ok := t.computeRange()
+	if ok {
+		t.rngSet, t.lo, t.hi = 1, lo, hi
+	} else {
+		t.rngSet = 2
+	}
+	return lo, hi, ok
+}
+
+func (t *term) computeRange() (int64, int64, bool) {
+	const big = int64(1) << 60
+	w := t.sort.width()
+	if w == 0 {
+		return 0, 0, false
+	}
+	switch t.op {
+	case oConst:
+		v := signExt(w, t.bits)
+		return v, v, true
+	case oZExt:
+		iw := t.args[0].sort.width()
+		if iw >= 63 {
+			return 0, 0, false
+		}
+		if lo, hi, ok := t.args[0].bvRange(); ok && lo >= 0 {
+			return lo, hi, true
+		}
+		return 0, int64(1)<<uint(iw) - 1, true
+	case oSExt:
+		iw := t.args[0].sort.width()
+		if lo, hi, ok := t.args[0].bvRange(); ok {
+			return lo, hi, true
+		}
+		return -(int64(1) << uint(iw-1)), int64(1)<<uint(iw-1) - 1, true
+	case oVar:
+		if w <= 32 {
+			return -(int64(1) << uint(w-1)), int64(1)<<uint(w-1) - 1, false // unsigned/signed view ambiguous: no range
+		}
+		return 0, 0, false
+	case oAdd, oSub:
+		if w != 64 {
+			return 0, 0, false
+		}
+		al, ah, ok1 := t.args[0].bvRange()
+		bl, bh, ok2 := t.args[1].bvRange()
+		if !ok1 || !ok2 || al < -big || ah > big || bl < -big || bh > big {
+			return 0, 0, false
+		}
+		if t.op == oAdd {
+			return al + bl, ah + bh, true
+		}
+		return al - bh, ah - bl, true
+	case oNeg:
+		if w != 64 {
+			return 0, 0, false
+		}
+		al, ah, ok := t.args[0].bvRange()
+		if !ok || al < -big {
+			return 0, 0, false
+		}
+		return -ah, -al, true
+	case oMul:
+		if w != 64 {
+			return 0, 0, false
+		}
+		al, ah, ok1 := t.args[0].bvRange()
+		bl, bh, ok2 := t.args[1].bvRange()
+		lim := int64(1) << 30
+		if !ok1 || !ok2 || al < -lim || ah > lim || bl < -lim || bh > lim {
+			return 0, 0, false
+		}
+		c := []int64{al * bl, al * bh, ah * bl, ah * bh}
+		lo, hi := c[0], c[0]
+		for _, v := range c {
+			if v < lo {
+				lo = v
+			}
+			if v > hi {
+				hi = v
+			}
+		}
+		return lo, hi, true
+	case oIte:
+		al, ah, ok1 := t.args[1].bvRange()
+		bl, bh, ok2 := t.args[2].bvRange()
+		if !ok1 || !ok2 {
+			return 0, 0, false
+		}
+		if bl < al {
+			al = bl
+		}
+		if bh > ah {
+			ah = bh
+		}
+		return al, ah, true
+	case oBAnd:
+		for i := 0; i < 2; i++ {
+			if t.args[i].isConst() {
+				if v := signExt(w, t.args[i].bits); v >= 0 {
+					return 0, v, true
+				}
+			}
+		}
+	case oExtract:
+		if t.p1 == 0 && w < 63 {
+			if lo, hi, ok := t.args[0].bvRange(); ok && lo >= 0 && hi < int64(1)<<uint(w-1) {
+				return lo, hi, true
+			}
+		}
+	}
+	return 0, 0, false
+}
+
+// asIntFloat recognises float terms that are exact images of 64-bit integers within +-2^53.
+func asIntFloat(f *term) (*term, bool) {
+	if f.sort != sF64 {
+		return nil, false
+	}
+	switch f.op {
+	case oConst:
+		x := math.Float64frombits(f.bits)
+		if x != x || math.IsInf(x, 0) || x != math.Trunc(x) || math.Abs(x) > float64(intFloatLimit) {
+			return nil, false
+		}
+		if x == 0 && math.Signbit(x) {
+			return nil, false
+		}
+		return tBV(64, uint64(int64(x))), true
+	case oSBV2F:
+		a := f.args[0]
+		if a.sort.width() < 64 {
+			a = tSExt(a, 64)
+		}
+		lo, hi, ok := a.bvRange()
+		if ok && lo >= -intFloatLimit && hi <= intFloatLimit {
+			return a, true
+		}
+	case oUBV2F:
+		a := f.args[0]
+		if a.sort.width() < 64 {
+			a = tZExt(a, 64)
+		}
+		lo, hi, ok := a.bvRange()
+		if ok && lo >= 0 && hi <= intFloatLimit {
+			return a, true
+		}
+	}
+	return nil, false
+}
+
+func intFloatSimplify(op opcode, s ssort, p0 int, args []*term) *term {
+	switch op {
+	case oFAdd, oFSub, oFMul:
+		a, ok1 := asIntFloat(args[0])
+		if !ok1 {
+			return nil
+		}
+		b, ok2 := asIntFloat(args[1])
+		if !ok2 {
+			return nil
+		}
+		var r *term
+		switch op {
+		case oFAdd:
+			r = mk(oAdd, sBV64, a, b)
+		case oFSub:
+			r = mk(oSub, sBV64, a, b)
+		default:
+			al, _, _ := a.bvRange()
+			bl, _, _ := b.bvRange()
+			if al < 0 || bl < 0 {
+				return nil // (-n) * 0 is -0 in IEEE
+			}
+			r = mk(oMul, sBV64, a, b)
+		}
+		lo, hi, ok := r.bvRange()
+		if !ok || lo < -intFloatLimit || hi > intFloatLimit {
+			return nil
+		}
+		return mk(oSBV2F, sF64, r)
+	case oFLt, oFLe, oFEq:
+		a, ok1 := asIntFloat(args[0])
+		if !ok1 {
+			return nil
+		}
+		b, ok2 := asIntFloat(args[1])
+		if !ok2 {
+			return nil
+		}
+		switch op {
+		case oFLt:
+			return mk(oSLt, sBool, a, b)
+		case oFLe:
+			return mk(oSLe, sBool, a, b)
+		}
+		return tEq(a, b)
+	case oEq:
+		if args[0].sort == sF64 {
+			a, ok1 := asIntFloat(args[0])
+			b, ok2 := asIntFloat(args[1])
+			if ok1 && ok2 {
+				return tEq(a, b)
+			}
+		}
+	case oFIsNaN, oFIsInf:
+		if _, ok := asIntFloat(args[0]); ok {
+			return mkBool(false)
+		}
+	case oFRound:
+		if _, ok := asIntFloat(args[0]); ok {
+			return args[0]
+		}
+	case oFAbs:
+		if a, ok := asIntFloat(args[0]); ok {
+			if lo, _, _ := a.bvRange(); lo >= 0 {
+				return args[0]
+			}
+		}
+	case oF2SBV:
+		if a, ok := asIntFloat(args[0]); ok {
+			return a
+		}
+	}
+	return nil
+}
